@@ -137,3 +137,42 @@ Theorem C03_median (zs : list Z) :
           else Ok (VA (AFlt (Qred ((inject_Z (nth (m - 1)%nat s 0%Z) + inject_Z (nth m s 0%Z)) / 2))))).
 Proof. exact (median_is_middle zs). Qed.
 Print Assumptions C03_median.
+
+(* ------------------------------------------------------------------ numeric strings are converted to numbers *)
+From RBQL Require Import NumHandler_Proofs.
+
+(* What a column accumulates (eff_vals, the values the per-group folds of C03_columnwise are taken over), by NumHandler:
+   an all-integer string column of MIN / MAX / SUM / MEDIAN: exactly the integers the strings denote *)
+Theorem C03_numeric_strings_int : forall (ak : agg_kind) (ss : list str) (zs : list Z),
+  uses_numh ak = Some true -> ss <> [] -> ints_of ss = Some zs ->
+  eff_vals ak (numh_init true) (map (fun s => VA (AStr s)) ss) = Ok (map AInt zs, started_str true).
+Proof. exact column_of_int_strings. Qed.
+Print Assumptions C03_numeric_strings_int.
+
+(* a string column of AVG / VARIANCE: the rationals the strings denote *)
+Theorem C03_numeric_strings_float : forall (ak : agg_kind) (ss : list str) (qs : list Q),
+  uses_numh ak = Some false -> ss <> [] -> floats_of ss = Some qs ->
+  eff_vals ak (numh_init false) (map (fun s => VA (AStr s)) ss) = Ok (map AFlt qs, started_str false).
+Proof. exact column_of_float_strings. Qed.
+Print Assumptions C03_numeric_strings_float.
+
+(* native numbers are accumulated as they are; and the type rule of an int-start column over strings: integers until the first
+   string that is not one, which switches the column to float conversion for good *)
+Theorem C03_native_numbers : forall (ak : agg_kind) (b : bool) (zs : list Z),
+  uses_numh ak = Some b -> zs <> [] ->
+  eff_vals ak (numh_init b) (map (fun z => VA (AInt z)) zs) = Ok (map AInt zs, started_raw b).
+Proof. exact column_of_native_ints. Qed.
+Print Assumptions C03_native_numbers.
+
+Theorem C03_int_column_switches_to_float : forall (s : str),
+  parse_int s = None ->
+  numh_parse (started_str true) (AStr s) = (to_float (AStr s), started_str false)
+  /\ forall v, numh_parse (started_str false) v = (to_float v, started_str false).
+Proof. exact (fun s H => conj (numh_int_mode_switch s H) numh_float_mode). Qed.
+Print Assumptions C03_int_column_switches_to_float.
+
+Example C03_numhandler_nonvacuous :
+  eff_vals KSum (numh_init true) [VA (AStr [49; 50]%N); VA (AStr [45; 51]%N)] = Ok ([AInt 12; AInt (-3)], started_str true)
+  /\ fst (numh_parse (started_str true) (AStr [50; 46; 53]%N)) = Ok (AFlt (5 # 2)).
+Proof. vm_compute. split; reflexivity. Qed.
+Print Assumptions C03_numhandler_nonvacuous.
